@@ -8,6 +8,7 @@ import (
 	"io"
 	"net"
 	"strings"
+	"sync/atomic"
 	"testing"
 	"testing/synctest"
 	"time"
@@ -670,6 +671,102 @@ func c20(e *e3, thorough bool) {
 				e.violate("C20", "exchange-stub-script", "script %v delivered %v closed=%t, want %v closed=%t", script, got, closed, want, !stayOpen)
 			}
 		}
+		// Two overlapping exchanges of one stub. The stub's goroutine has no
+		// synchronisation operation between taking a script entry apart
+		// (errors.As) and acting on it, but errors.As runs the entry's own As
+		// method — user code, which may block. For every script and every
+		// block entry k: exchange A is held inside the As of its k-th block
+		// entry, exchange B runs as far as it gets, A is released. Each must
+		// deliver the script on its own (one preemption at every such point).
+		for _, script := range scripts {
+			blocks := 0
+			bad := false
+			for i, x := range script {
+				var blk mqtttest.ExchangeBlock
+				last := i == len(script)-1
+				if errors.Is(x, mqtt.ErrClosed) && !last {
+					bad = true
+				}
+				if errors.As(x, &blk) {
+					blocks++
+					if blk.Delay == 0 && !last {
+						bad = true
+					}
+				}
+			}
+			if bad || blocks == 0 {
+				continue
+			}
+			for hold := 1; hold <= blocks; hold++ {
+				e.evals.Add(1)
+				ctl := &asCtl{hold: -1, held: make(chan struct{}), resume: make(chan struct{})}
+				gated := make([]error, len(script))
+				for i, x := range script {
+					var blk mqtttest.ExchangeBlock
+					if errors.As(x, &blk) {
+						gated[i] = gatedBlock{blk.Delay, ctl}
+					} else {
+						gated[i] = x
+					}
+				}
+				var want []error
+				stayOpen := false
+				for _, x := range gated {
+					switch {
+					case errors.As(x, new(mqtttest.ExchangeBlock)):
+						if x.(gatedBlock).delay == 0 {
+							stayOpen = true
+						}
+					default:
+						want = append(want, x)
+						if errors.Is(x, mqtt.ErrClosed) {
+							stayOpen = true
+						}
+					}
+				}
+				stub := mqtttest.NewPublishExchangeStub(nil, gated...)
+				var got [2][]error
+				var closed [2]bool
+				func() {
+					defer func() { recover() }()
+					synctest.Test(e3T, func(t *testing.T) {
+						drain := func(i int, ch <-chan error) {
+							for x := range ch {
+								got[i] = append(got[i], x)
+							}
+							closed[i] = true
+						}
+						ctl.resume = make(chan struct{}) // a channel of the bubble
+						ctl.calls.Store(0)
+						ctl.hold = int64(hold)
+						chA, _ := stub([]byte("a"), "t")
+						go drain(0, chA)
+						synctest.Wait() // A sits inside As of its hold-th block entry
+						chB, _ := stub([]byte("b"), "t")
+						go drain(1, chB)
+						time.Sleep(20 * time.Millisecond) // B runs through its delays
+						synctest.Wait()
+						close(ctl.resume)
+						time.Sleep(20 * time.Millisecond)
+						synctest.Wait()
+						// drainers of channels that stay open by contract remain blocked:
+						// the bubble then ends with synctest's panic, recovered outside
+					})
+				}()
+				for i := range got {
+					okSeq := len(got[i]) == len(want)
+					for j := range got[i] {
+						if okSeq && got[i][j] != want[j] {
+							okSeq = false
+						}
+					}
+					if !okSeq || closed[i] == stayOpen {
+						e.violate("C20", "exchange-stub-overlap", "script %v with exchange A held at block entry %d while exchange B runs: exchange %c delivered %v closed=%t, want %v closed=%t", script, hold, 'A'+i, got[i], closed[i], want, !stayOpen)
+					}
+				}
+				e.distinct[fmt.Sprintf("xo/%d/%d", len(script), hold)] = true
+			}
+		}
 		errStub := mqtttest.NewPublishExchangeStub(io.EOF)
 		if ch, err := errStub(nil, "t"); err != io.EOF || ch != nil {
 			e.violate("C20", "exchange-stub-errfix", "errFix stub returned %v %v", ch, err)
@@ -679,6 +776,34 @@ func c20(e *e3, thorough bool) {
 }
 
 var e3T *testing.T
+
+// gatedBlock is an ExchangeBlock entry as user code may supply it: an error
+// type of its own that presents itself through the errors.As protocol, and
+// whose As method is a scheduling point.
+type gatedBlock struct {
+	delay time.Duration
+	ctl   *asCtl
+}
+
+type asCtl struct {
+	calls  atomic.Int64
+	hold   int64 // the As call to hold, counted from arming; -1 none
+	held   chan struct{}
+	resume chan struct{}
+}
+
+func (g gatedBlock) Error() string { return "gated block" }
+func (g gatedBlock) As(target any) bool {
+	p, ok := target.(*mqtttest.ExchangeBlock)
+	if !ok {
+		return false
+	}
+	*p = mqtttest.ExchangeBlock{Delay: g.delay}
+	if g.ctl.hold > 0 && g.ctl.calls.Add(1) == g.ctl.hold {
+		<-g.ctl.resume
+	}
+	return true
+}
 
 func trs(l []mqtttest.Transfer) string {
 	var s []string
